@@ -50,6 +50,10 @@ def run_case(c, base):
     save_ops = [{"op": "basedir", "path": base}, prob, dict(c["new"]), {"op": "configdump", "sid": "s"}]
     for _ in range(c["ncalls"]):
         save_ops.append({"op": "solve", "sid": "s", "k": 1})
+    # a copy of the directory taken now; the run then continues in the original, so the copy's latest step is older than the original's
+    save_ops.append({"op": "cpdir", "src": "d", "dst": "cp"})
+    save_ops.append({"op": "solve", "sid": "s", "k": 1, "_after_copy": True})
+    save_ops.append({"op": "solve", "sid": "s", "k": 1, "_after_copy": True})
     save_ops.append({"op": "ls", "dir": "d", "template_sid": "s"})
     saver = [r["resp"] for r in core.run_impl(save_ops, 1)]
     outs = []
@@ -67,6 +71,13 @@ def run_case(c, base):
             r["async"] = 1 - c["new"]["async"]
         ops = [{"op": "basedir", "path": base}, r, {"op": "configdump", "sid": f"r{j}"}, {"op": "ls", "dir": "d", "template_sid": f"r{j}"},
                {"op": "solve", "sid": f"r{j}", "k": 2}, {"op": "ls", "dir": r.get("newdir", "d"), "template_sid": f"r{j}"}]
+        outs.append((ops, [x["resp"] for x in core.run_impl(ops, 1)]))
+    # restore from the copied directory alone: first while the original (with newer steps) still exists, then after it is gone
+    for j, (step, gone) in enumerate([(None, False), (1, False), (None, True)], start=len(c["restores"])):
+        r = {"op": "restore", "sid": f"r{j}", "dir": "cp", "solver": c["kind"], "id": "p", "_from_copy": True}
+        if step is not None:
+            r["step"] = step
+        ops = [{"op": "basedir", "path": base}] + ([{"op": "rmdir", "dir": "d"}] if gone else []) + [r, {"op": "configdump", "sid": f"r{j}"}]
         outs.append((ops, [x["resp"] for x in core.run_impl(ops, 1)]))
     return save_ops, saver, outs
 
@@ -138,9 +149,23 @@ def run(tier, seed):
             if op["op"] == "ls":
                 ls0 = core.parse_resp(r)
         latest = max(held)
+        latest_copy = c["ncalls"]
         for ops, rs in outs:
-            rop, rresp = ops[1], rs[1]
+            ridx = next(i_ for i_, o_ in enumerate(ops) if o_["op"] == "restore")
+            rop, rresp = ops[ridx], rs[ridx]
             di = core.parse_resp(rresp)
+            if rop.get("_from_copy"):
+                res.evaluations += 1
+                case = {"solver": c["kind"], "problem": c["pk"], "restore": {k_: v for k_, v in rop.items() if not k_.startswith("_")}, "copied_directory": True,
+                        "original_removed": any(o_["op"] == "rmdir" for o_ in ops)}
+                stepc = rop.get("step") or latest_copy
+                res.nontrivial.add((c["i"], "copy", str(rop), case["original_removed"]))
+                res.count("restored-from-copy")
+                if "iter" not in di or any(di.get(k_) != held[stepc].get(k_) for k_ in KEYS):
+                    res.disagreements.append({"channel": "C10/from-directory-alone", "case": case, "model": str({k_: held[stepc].get(k_) for k_ in ("iter", "values")})[:300], "impl": rresp[:300],
+                                              "failing_input": True, "what": f"restore of a copied checkpoint directory does not rebuild the state of its own step {stepc} "
+                                              "(the directory alone must determine the result)", "key": "from-directory-alone"})
+                continue
             res.evaluations += 1
             case = {"solver": c["kind"], "problem": c["pk"], "restore": {k_: v for k_, v in rop.items()}, "saver_calls": c["ncalls"]}
             if "error" in di or not rresp.startswith("ok"):
@@ -167,8 +192,8 @@ def run(tier, seed):
                                           "failing_input": True, "what": f"the checkpoint of step {step} stores the policy the solver held ({held_policy}) but the restored solver has policy {di.get('policy')}",
                                           "key": key})
             # configuration equal on every non-overridable field; overrides took effect; period restored
-            if rs[2] != cfg0:
-                res.disagreements.append({"channel": "C10/config", "case": case, "model": (cfg0 or "")[:400], "impl": rs[2][:400], "failing_input": True,
+            if rs[ridx + 1] != cfg0:
+                res.disagreements.append({"channel": "C10/config", "case": case, "model": (cfg0 or "")[:400], "impl": rs[ridx + 1][:400], "failing_input": True,
                                           "what": "restored configuration / attributes differ from the original", "key": "config"})
             exp_f = 2 if "f" in rop else c["new"]["f"]
             exp_m = 3 if "m" in rop else c["new"]["m"]
@@ -179,7 +204,7 @@ def run(tier, seed):
                 res.disagreements.append({"channel": "C10/overrides", "case": case, "model": str((exp_f, exp_m, exp_async, exp_dir)), "impl": str(got), "failing_input": True,
                                           "what": "overrides (directory, frequency, retention, async) did not take effect as passed", "key": "overrides"})
             # original directory untouched by a restore into a new directory (before any save of the restored solver)
-            ls1 = core.parse_resp(rs[3])
+            ls1 = core.parse_resp(rs[ridx + 2])
             if any(ls1.get(k_) != ls0.get(k_) for k_ in ("steps", "config", "stepvals")):
                 res.disagreements.append({"channel": "C10/original-dir", "case": case, "model": str(ls0)[:300], "impl": str(ls1)[:300], "failing_input": True,
                                           "what": "restore altered the original directory", "key": "original-dir"})
